@@ -196,6 +196,8 @@ def run(tier):
     quick = tier == "quick"
     cs = configs(tier)
     for c in cs[:: (3 if quick else 1)]:
+        if len(c["genes"]) == 3 and (c["allow"] or c["approve"] == "all"):
+            continue                          # three genes with every value reachable everywhere: > 10^7 states; the two-gene instances cover these settings
         if c["allow"]:
             c = dict(c, values=[0, 1])        # with mutations enabled every value is reachable everywhere: keep the instance small
         cfg = tlc.cfg_text(spec="Spec", constants=constants(c), properties=["AllStepsOK"], view="MCView")
